@@ -1083,12 +1083,16 @@ def _gen_session(rng, model, params, index):
         # tables, library list) or, for a name the module already has, that
         # very symbol; the session's patches may call it
         for k in range(rng.choice([1, 1, 2])):
-            if wl["externs"] and rng.random() < 0.3:
-                nm = rng.choice(wl["externs"])
+            have = wl["externs"] + wl["all"] + (wl.get("abs") or [])
+            if have and rng.random() < 0.35:
+                # (a name the module already has - as an import, as a label
+                # of its own, or as an absolute symbol: that symbol is handed
+                # out and nothing is created)
+                nm = rng.choice(have)
             else:
                 nm = f"nx{index}_{k}"
             ops.append({"k": "extern", "name": nm, "lib": rng.choice(["libx.so", "liby.so.1", "x.dll"]), "preload": rng.random() < 0.3, "libpath": rng.random() < 0.3})
-            if nm not in wl["externs"]:
+            if nm not in have:
                 wl["externs"] = wl["externs"] + [nm]
     if rng.random() < params.get("insfn_p", 0.08) and params.get("_fmt") and ".text" in model.sections:
         for k in range(rng.choice([1, 1, 2])):
